@@ -42,10 +42,11 @@ Definition names_m_server (body a : bytes) : Prop :=
 Definition declared_size_ok (content_length : bytes) : Prop :=
   forall l, parse_i64 content_length = Some l -> (l <= Z.of_N max_size)%Z.
 
-(* lifetime: max-age first *)
+(* lifetime: max-age first, over all Cache-Control field lines read as one list; the sum
+   saturates at the largest int64 *)
 Definition lifetime (now : Z) (expires : option Z) (cache_control : bytes) (e : Z) : Prop :=
-  match cache_control_max_age cache_control with
-  | Some age => e = wrap64 (age + now)
+  match cache_control_max_age (join_lines cache_control) with
+  | Some age => e = sat_add age now
   | None => match expires with Some x => e = x | None => e = 0%Z end
   end.
 
@@ -67,8 +68,8 @@ Definition honouredb (now : Z) (r : wk_reply) : option (bytes * Z) :=
            if forallb member_ok m then
              match named_server m with
              | [] => None
-             | a => Some (a, match cache_control_max_age (r_cache_control r) with
-                             | Some age => wrap64 (age + now)
+             | a => Some (a, match cache_control_max_age (join_lines (r_cache_control r)) with
+                             | Some age => sat_add age now
                              | None => match r_expires r with Some x => x | None => 0%Z end
                              end)
              end
